@@ -191,6 +191,7 @@ func (la *LeapArray) currentBucketOfTime(now uint64, bg BucketGenerator) (*Bucke
 	bucketStart := calculateStartTime(now, la.bucketLengthInMs)
 
 	for { //spin to get the current BucketWrap
+		util.VerifYield("la.get")
 		old := la.array.get(idx)
 		if old == nil {
 			// because la.array.data had initiated when new la.array
@@ -210,8 +211,10 @@ func (la *LeapArray) currentBucketOfTime(now uint64, bg BucketGenerator) (*Bucke
 		} else if bucketStart > atomic.LoadUint64(&old.BucketStart) {
 			// current time has been next cycle of LeapArray and LeapArray dont't count in last cycle.
 			// reset BucketWrap
+			util.VerifYield("la.trylock")
 			if la.updateLock.TryLock() {
 				old = bg.ResetBucketTo(old, bucketStart)
+				util.VerifYield("la.unlock")
 				la.updateLock.Unlock()
 				return old, nil
 			} else {
@@ -245,6 +248,7 @@ func (la *LeapArray) valuesWithTime(now uint64) []*BucketWrap {
 	}
 	ret := make([]*BucketWrap, 0, la.array.length)
 	for i := 0; i < la.array.length; i++ {
+		util.VerifYield("la.values.get")
 		ww := la.array.get(i)
 		if ww == nil || la.isBucketDeprecated(now, ww) {
 			continue
